@@ -3,6 +3,8 @@ package main
 import (
 	"fmt"
 	"strings"
+
+	"gorgonia.org/tensor"
 )
 
 func init() {
@@ -242,8 +244,66 @@ func sizeEW(prop string, emit func(string)) {
 	}
 }
 
+// mixdt <op> <dtA> <dtB> <form> : operands of DIFFERENT element types must be refused.
+//   form: vv (two tensors of equal shape) | vs / sv (a Go scalar of the other type, right / left) |
+//         vt / tv (a rank-0 tensor of the other type, right / left) | reuse (a destination of the other type)
+// Observation: err | ok | panic
+func init() {
+	execs["mixdt"] = func(a []string) (st string) {
+		defer func() {
+			if e := recover(); e != nil {
+				st = "panic"
+			}
+		}()
+		f := binFuncs[a[0]]
+		A := tensor.New(tensor.WithShape(2, 2), tensor.WithBacking(backing(a[1], []int{1, 2, 3, 4})))
+		var err error
+		switch a[3] {
+		case "vv":
+			B := tensor.New(tensor.WithShape(2, 2), tensor.WithBacking(backing(a[2], []int{1, 2, 3, 4})))
+			_, err = f(A, B)
+		case "vs":
+			_, err = f(A, tokVal(a[2], 2))
+		case "sv":
+			_, err = f(tokVal(a[2], 2), A)
+		case "vt":
+			_, err = f(A, tensor.New(tensor.FromScalar(tokVal(a[2], 2))))
+		case "tv":
+			_, err = f(tensor.New(tensor.FromScalar(tokVal(a[2], 2))), A)
+		case "reuse":
+			B := tensor.New(tensor.WithShape(2, 2), tensor.WithBacking(backing(a[1], []int{1, 2, 3, 4})))
+			R := tensor.New(tensor.WithShape(2, 2), tensor.WithBacking(backing(a[2], []int{0, 0, 0, 0})))
+			_, err = f(A, B, tensor.WithReuse(R))
+		default:
+			panic("form")
+		}
+		if err != nil {
+			return "err"
+		}
+		return "ok"
+	}
+}
+
+func genMixDt(prop string, emit func(string)) {
+	ops := []string{"add", "sub", "mul", "div", "pow", "mod", "min", "max"}
+	if prop == "C11" {
+		ops = cmpOps
+	}
+	pairs := [][2]string{{"f64", "i64"}, {"f64", "f32"}, {"i32", "u32"}, {"i", "i64"}, {"f32", "i32"}, {"u8", "i8"}, {"c128", "f64"}, {"i64", "f64"}}
+	for _, op := range ops {
+		for _, p := range pairs {
+			for _, form := range []string{"vv", "vs", "sv", "vt", "tv", "reuse"} {
+				emit(fmt.Sprintf("mixdt %s %s %s %s", op, p[0], p[1], form))
+			}
+		}
+	}
+}
+
 func genEW(prop, tier string, r *rng, emit func(string)) {
 	thorough := tier == "thorough"
+	if prop == "C06" || prop == "C11" {
+		genMixDt(prop, emit)
+	}
 	sysEW(prop, r, emit)
 	sizeEW(prop, emit)
 	n := 7000
